@@ -97,6 +97,49 @@ def _pin_to_span(ctx, p, U, inner, n, j, where):
 # ------------------------------------------------------------------------------------------------
 # span search
 # ------------------------------------------------------------------------------------------------
+@scenario('C03', fns=['helpers.basis_function_one', 'helpers.basis_function', 'helpers.basis_function_ders_one',
+                      'helpers.find_span_linear', 'helpers.find_span_binsearch', 'knotvector.check'],
+          quick=[dict(p=p, e0=e0, e1=e1, ni=ni) for p, ni in ((1, 1), (2, 1), (3, 0), (2, 2)) for e0, e1 in ((1, 0), (0, 1), (1, 1), (2, 1))])
+def basis_one_repeated_end_knots(ctx, p, e0, e1, ni):
+    """requires: a normalised knot vector whose first knot is repeated p+1+e0 and last knot p+1+e1 times (non-decreasing,
+                 accepted by knotvector.check; e > 0 leaves the outermost basis functions with an empty support), ni
+                 symbolic interior knots; u at the domain start, the domain end, or anywhere in the domain
+       ensures : both span searches return the non-empty interval of u; basis_function sums to one; for EVERY index i
+                 basis_function_one(p, U, i, u) (and order 0 of basis_function_ders_one) is the Cox-de Boor value:
+                 basis_function[i-span+p] inside the span's support, 0 outside; they sum to one over all i"""
+    inner = [ctx.num('k%d' % (i + 1)) for i in range(ni)]
+    chain = [ctx.lit(0)] + inner + [ctx.lit(1)]
+    for x, y in zip(chain, chain[1:]):
+        ctx.assume(ctx.lt(x, y))
+    U = [ctx.lit(0)] * (p + 1 + e0) + inner + [ctx.lit(1)] * (p + 1 + e1)
+    n = len(U) - p - 1
+    hp = ctx.geomdl('helpers')
+    ctx.check_true('knotvector.check_accepts', ctx.geomdl('knotvector').check(p, list(U), n) is True)
+    shapes.separated_knots(ctx, U, SPAN_TOL)
+    for where in ('start', 'end', 'any'):
+        if where == 'any':
+            u = shapes.param_in(ctx, 'u', U[p], U[n])
+            ctx.assume(ctx.sep(u, U[n], SPAN_TOL))
+        else:
+            u = U[p] if where == 'start' else U[n]
+        want = spec.span_spec(p, U, n, u)
+        ctx.check_true(where + '.span.linear', hp.find_span_linear(p, list(U), n, u) == want)
+        ctx.check_true(where + '.span.binsearch', hp.find_span_binsearch(p, list(U), n, u) == want)
+        N = hp.basis_function(p, list(U), want, u)
+        tot = 0
+        for v in N:
+            tot = tot + v
+        ctx.check_eq(where + '.basis_function.sum_to_one', tot, 1)
+        tot1 = 0
+        for i in range(n):
+            one = hp.basis_function_one(p, list(U), i, u)
+            tot1 = tot1 + one
+            expect = N[i - want + p] if want - p <= i <= want else 0
+            ctx.check_eq('%s.basis_function_one[%d]' % (where, i), one, expect)
+            ctx.check_eq('%s.basis_function_ders_one[%d][0]' % (where, i), hp.basis_function_ders_one(p, list(U), i, u, 0)[0], expect)
+        ctx.check_eq(where + '.basis_function_one.sum_to_one', tot1, 1)
+
+
 def _span_shapes(pmax, kmax, pdeep, kdeep):
     """degrees 1..pmax with up to kmax interior knots; degrees 1..pdeep with up to kdeep (the binary search needs at
     least 3 interior knots before it ever moves upwards from its first midpoint)"""
@@ -498,6 +541,16 @@ def kv_generate(ctx, degree, counts=None):
             ctx.check_true(tag + '.passes_check', kvm.check(degree, U, n) is True, what)
     U = kvm.generate(degree, degree + 2)
     ctx.check_eq_vec('generate.default_is_clamped', U, kvm.generate(degree, degree + 2, clamped=True))
+    # the returned list is the caller's: editing it must not change what a later call returns
+    for clamped in (True, False):
+        U1 = kvm.generate(degree, degree + 3, clamped=clamped)
+        snap = list(U1)
+        U1.reverse()
+        U1.append(U1[0] + 7)
+        U1[0] = U1[0] - 3
+        U2 = kvm.generate(degree, degree + 3, clamped=clamped)
+        ctx.check_true('generate.again_after_caller_edit.len', len(U2) == len(snap), '%r' % (U2,))
+        ctx.check_eq_vec('generate.again_after_caller_edit', U2, snap)
 
 
 @scenario('C03', fns=['knotvector.normalize'],
